@@ -300,3 +300,11 @@ package server
 //@   inline-at-calls
 //@   at-call crypto/rand.Read assert [C03:instance-key-is-random] len(arg0) == shortNonceKeyLength && shortNonceKeyLength >= 32
 //@   ensures [C03:instance-key-is-random] res1 == nil ==> res0 != nil && typeis(res0, *ShortNonceHash) && len(res0.(*ShortNonceHash).key) == shortNonceKeyLength && 2 <= res0.(*ShortNonceHash).hmacLen && res0.(*ShortNonceHash).hmacLen <= 32
+
+//@      // ---- C03: what Generate mints is what Validate accepts within the hour: four bytes of the current minute
+//@      // count followed by the first hmacLen bytes of HMAC-SHA256(key, those four bytes), base36-encoded
+//@ func (*ShortNonceHash).Generate
+//@   requires 2 <= s.hmacLen && s.hmacLen <= 32 && !hashWriteFailed
+//@   at-call encodeBase36 assert [C03:minted-nonce-layout] len(arg0) == 4 + s.hmacLen && be32(arg0, 0) == floordiv(floordiv(now(), 1000000000), 60) % 4294967296
+//@   at-call encodeBase36 assert [C03:minted-nonce-mac] hashKey[hash] == bytesId(s.key) && hashed[hash] == bytesId(timestampBytes) && len(timestampBytes) == 4 && be32(timestampBytes, 0) == be32(arg0, 0) && (forall i :: 0 <= i && i < s.hmacLen ==> arg0[4+i] == fullHMAC[i])
+//@   ensures [C03:minted-or-error] res1 == nil || errIs(res1, errFailedToGenerateNonce)
